@@ -427,11 +427,16 @@ def check_midpass(chk: Check) -> None:
         return w
 
     real_run = opt._run_top_level_optimizer_pass
+    real_run_fn = opt._run_function_optimizer_pass
     real_opt = capi.optimize_graph
 
     def run_pass(p, model):
         st["pass"] = p.name
         return real_run(p, model)
+
+    def run_fn_pass(p, graph):
+        st["pass"] = p.name      # the same pass, running on a function body
+        return real_run_fn(p, graph)
 
     def wrapped(model):
         st["active"] = True
@@ -446,6 +451,7 @@ def check_midpass(chk: Check) -> None:
         for o, n in targets:
             setattr(o, n, make(o, n))
         opt._run_top_level_optimizer_pass = run_pass
+        opt._run_function_optimizer_pass = run_fn_pass
         capi.optimize_graph = wrapped
         for name, fn, specs, kw in policy_programs():
             xs = [np.asarray(((np.arange(int(np.prod(s))) * 0.37) % 5.0 - 2.0).reshape(s), dtype=np.float32)
@@ -488,6 +494,7 @@ def check_midpass(chk: Check) -> None:
         for (o, n), f in orig.items():
             setattr(o, n, f)
         opt._run_top_level_optimizer_pass = real_run
+        opt._run_function_optimizer_pass = real_run_fn
         capi.optimize_graph = real_opt
     chk.info("midpass_abort_injections", total)
 
